@@ -46,7 +46,7 @@ class World:
             return self.conns.setdefault(serial, {"tracked": [], "untracked": [], "session": None, "conn": None})
 
 
-def make_env(P, servertype, commtimeout):
+def make_env(P, servertype, commtimeout, linger=30.0):
     world = World()
     ctx = P.callcontext.current_context
 
@@ -74,6 +74,9 @@ def make_env(P, servertype, commtimeout):
         def noop(self, pad):
             return len(pad)
 
+        def gen(self, n):
+            return (i for i in range(n))
+
         @P.server.callback
         def cb_fail(self):
             raise ValueError("callback failure")
@@ -86,7 +89,7 @@ def make_env(P, servertype, commtimeout):
             e["session"] = weakref.ref(self)
             return ctx.client._vserial
 
-    fx = fixture.Fixture(servertype=servertype, COMMTIMEOUT=commtimeout, THREADPOOL_SIZE=40, THREADPOOL_SIZE_MIN=2)
+    fx = fixture.Fixture(servertype=servertype, COMMTIMEOUT=commtimeout, THREADPOOL_SIZE=40, THREADPOOL_SIZE_MIN=2, ITER_STREAMING=True, ITER_STREAM_LINGER=linger)
     fx.register(Svc(), "svc")
     fx.register(Sess, "sess")
     return fx, world
@@ -96,7 +99,7 @@ def hook_count(fx, serial):
     return len([e for e in fx.daemon.evlog.of("disconnect") if e[2] == serial])
 
 
-def open_victim(fx, ser, ntrack, nuntrack, use_session, rec):
+def open_victim(fx, ser, ntrack, nuntrack, use_session, rec, nstreams=0):
     c = wire.RawClient(fx.location, timeout=8.0)
     m = c.handshake("svc", ser)
     if m.type != wire.CONNECTOK:
@@ -107,6 +110,12 @@ def open_victim(fx, ser, ntrack, nuntrack, use_session, rec):
         r = c.invoke("sess", "touch", (), {}, ser)
         if r.flags & wire.F_EXC:
             raise RuntimeError("touch failed %r" % ser.loads(r.data))
+    for _ in range(nstreams):
+        # an item stream that is still open when the connection ends is one more thing the daemon has to clean up
+        r = c.invoke("svc", "gen", (5,), {}, ser)
+        sid = bytes(r.anns.get("STRM", b"")).decode()
+        if sid:
+            c.invoke("Pyro.Daemon", "get_next_stream_item", (sid,), {}, ser)
     return c, serial
 
 
@@ -128,6 +137,7 @@ def gen_cases(r, tier, reqlen):
         c["nuntrack"] = r.choice([0, 0, 1, 2])
         c["session"] = r.random() < 0.5
         c["witnesses"] = r.choice([1, 1, 2, 3])
+        c["streams"] = r.choice([0, 0, 1, 2])
     r.shuffle(cases)
     return cases
 
@@ -135,7 +145,7 @@ def gen_cases(r, tier, reqlen):
 def run_case(fx, world, c, rec, r, sername):
     P = fx.P
     ser = P.serializers.serializers[sername]
-    pay = dict(c, servertype=fx.servertype, serializer=sername, commtimeout=P.config.COMMTIMEOUT)
+    pay = dict(c, servertype=fx.servertype, serializer=sername, commtimeout=P.config.COMMTIMEOUT, linger=P.config.ITER_STREAM_LINGER)
     rec.case(tuple(sorted((k, repr(v)) for k, v in pay.items())), nontrivial=c["ntrack"] > 0 or c["session"],
              sample=pay if rec.evaluations % 60 == 3 else None)
     if not fx.wait_until(lambda: fx.live_connection_count() == 0, 10.0):
@@ -144,7 +154,7 @@ def run_case(fx, world, c, rec, r, sername):
     witnesses = []
     try:
         for _ in range(c["witnesses"]):
-            w, ws = open_victim(fx, ser, r.choice([1, 2]), 0, r.random() < 0.5, rec)
+            w, ws = open_victim(fx, ser, r.choice([1, 2]), 0, r.random() < 0.5, rec, r.choice([0, 1]))
             witnesses.append((w, ws))
         if c["ending"] == "refused-handshake":
             v = wire.RawClient(fx.location, timeout=8.0)
@@ -159,7 +169,7 @@ def run_case(fx, world, c, rec, r, sername):
                 rec.count("ending_ok")
             cleanup(witnesses)
             return
-        v, serial = open_victim(fx, ser, c["ntrack"], c["nuntrack"], c["session"], rec)
+        v, serial = open_victim(fx, ser, c["ntrack"], c["nuntrack"], c["session"], rec, c.get("streams", 0))
     except Exception as x:
         rec.inconc("could not set up connections: %r" % (x,))
         for w, _ in witnesses:
@@ -258,6 +268,10 @@ def run_case(fx, world, c, rec, r, sername):
             bad = ("tracked-set-not-cleared", "connection %d still tracks %d resources" % (serial, len(conn.tracked_resources)))
         elif conn.pyroInstances:
             bad = ("session-instances-kept", "connection %d still holds session instances %r" % (serial, list(conn.pyroInstances)))
+    if not bad and fx.P.config.ITER_STREAM_LINGER == 0 and ent["conn"] is not None:
+        left = [sid for sid, info in list(fx.daemon.streaming_responses.items()) if info[0] is ent["conn"]]
+        if left:
+            bad = ("streams-of-dead-connection-kept", "ITER_STREAM_LINGER=0 but %d stream(s) of connection %d are still in the daemon's table" % (len(left), serial))
     if not bad and c["session"]:
         ref = ent["session"]
         ent["conn"] = None
@@ -332,7 +346,7 @@ def plan(tier, seed):
     for st in ("thread", "multiplex"):
         for sername in fixture.SERIALIZERS:
             for rep in range(1 if tier == "quick" else 4):
-                shards.append({"servertype": st, "serializer": sername, "kind": "main", "rep": rep})
+                shards.append({"servertype": st, "serializer": sername, "kind": "main", "rep": rep, "linger": 0.0 if (rep + len(sername)) % 2 else 30.0})
         shards.append({"servertype": st, "serializer": "serpent", "kind": "timeout"})
     return shards
 
@@ -359,7 +373,7 @@ def run_shard(shard, rec):
                 rec.count(k)
         return
     rec.count("timeout_endings")
-    fx, world = make_env(P, shard["servertype"], 0.0)
+    fx, world = make_env(P, shard["servertype"], 0.0, shard.get("linger", 30.0))
     try:
         ser = P.serializers.serializers[sername]
         reqlen = len(wire.encode(wire.INVOKE, 0, 9, ser.serializer_id, ser.dumpsCall("svc", "noop", ("p" * 30,), {})))
@@ -387,7 +401,7 @@ def replay(payload, rec):
     st = c.pop("servertype")
     sername = c.pop("serializer")
     ct = c.pop("commtimeout", 0.0)
-    fx, world = make_env(P, st, ct)
+    fx, world = make_env(P, st, ct, c.pop("linger", 30.0))
     try:
         run_case(fx, world, c, rec, gen.rng(0, "replay"), sername)
     finally:
